@@ -126,9 +126,9 @@ func SeedStore(c *vs.Case, e *Env, o SeedOpts) []Seed {
 		}
 		role := ""
 		onDesired := like != nil
-		roles := []string{"matching-orphan", "stale-owned", "foreign-owned", "nonmatching-orphan", "other-namespace", "owned-nonmatching", "extra-owner"}
+		roles := []string{"matching-orphan", "stale-owned", "foreign-owned", "nonmatching-orphan", "other-namespace", "owned-nonmatching", "extra-owner", "matching-orphan-plain-owner"}
 		if e.Scn.Cfg.Kind == "decorator" {
-			roles = []string{"dec-unmarked", "dec-other-marker", "stale-owned", "foreign-owned", "nonmatching-orphan", "other-namespace"}
+			roles = []string{"dec-unmarked", "dec-other-marker", "stale-owned", "foreign-owned", "nonmatching-orphan", "other-namespace", "dec-plain-owner"}
 		}
 		role = roles[c.Int(len(roles))]
 		if undeclared {
@@ -142,6 +142,18 @@ func SeedStore(c *vs.Case, e *Env, o SeedOpts) []Seed {
 			for k, v := range e.MatchLabels() {
 				labels[k] = v
 			}
+		case "matching-orphan-plain-owner":
+			// lists the parent as an ordinary (non-controller) owner: still an orphan, adoptable
+			for k, v := range e.MatchLabels() {
+				labels[k] = v
+			}
+			meta["ownerReferences"] = []any{OwnerRefTo(parent, false)}
+		case "dec-plain-owner":
+			// controlled by someone else, the target is only a plain owner; carries our marker
+			meta["ownerReferences"] = []any{
+				map[string]any{"apiVersion": parent["apiVersion"], "kind": parent["kind"], "name": "other-parent", "uid": "uid-foreign", "controller": true, "blockOwnerDeletion": true},
+				OwnerRefTo(parent, false)}
+			meta["annotations"] = map[string]any{"metacontroller.k8s.io/decorator-controller": e.Scn.Cfg.Name}
 		case "stale-owned", "extra-owner":
 			for k, v := range e.MatchLabels() {
 				labels[k] = v
@@ -192,7 +204,7 @@ func SeedStore(c *vs.Case, e *Env, o SeedOpts) []Seed {
 		}
 		// C01's precondition: no foreign object occupies a desired name. Objects
 		// that the parent neither owns nor may adopt are "foreign" in that sense.
-		foreign := role == "foreign-owned" || role == "nonmatching-orphan" || role == "owned-nonmatching" || role == "dec-unmarked" || role == "dec-other-marker" ||
+		foreign := role == "foreign-owned" || role == "nonmatching-orphan" || role == "owned-nonmatching" || role == "dec-plain-owner" || role == "dec-unmarked" || role == "dec-other-marker" ||
 			(role == "matching-orphan" && e.Scn.Cfg.Kind == "decorator")
 		if onDesired && foreign && !o.ForeignOnDesiredName {
 			meta["name"] = fmt.Sprintf("seed%d", i)
